@@ -988,7 +988,7 @@ class ExecutionPlan:
                 new_set.update(parent_to_children_mapping[feature.uuid])
         return new_set
 
-    def group_features_by_compute_framework_and_options(self, features: Set[Feature]) -> Dict[int, Set[Feature]]:
+    def group_features_by_compute_framework_and_options(self, features: Set[Feature]) -> Dict[Any, Set[Feature]]:
         """Group features by compute framework, options, and data type.
 
         Features with data_type=None are "lenient" - they join existing groups
@@ -996,7 +996,7 @@ class ExecutionPlan:
         This allows index columns (which have no explicit type) to stay grouped
         with typed features from the same FeatureGroup.
         """
-        hash_collector: Dict[int, Set[Feature]] = defaultdict(set)
+        hash_collector: Dict[Any, Set[Feature]] = defaultdict(set)
         none_typed_features: list[Feature] = []
 
         # First pass: group features with explicit data_type
@@ -1004,18 +1004,18 @@ class ExecutionPlan:
             if feature.data_type is None:
                 none_typed_features.append(feature)
             else:
-                f_hash = feature.has_similarity_properties()
+                f_hash = feature.similarity_key()
                 hash_collector[f_hash].add(feature)
 
         # Second pass: assign None-typed features to existing groups with matching base hash
         for feature in none_typed_features:
-            base_hash = feature.base_similarity_properties()
+            base_hash = feature.base_similarity_key()
             assigned = False
 
             # Find an existing group with matching base properties
             for existing_hash, group in hash_collector.items():
                 any_feature = next(iter(group))
-                if any_feature.base_similarity_properties() == base_hash:
+                if any_feature.base_similarity_key() == base_hash:
                     hash_collector[existing_hash].add(feature)
                     assigned = True
                     break
